@@ -1,5 +1,6 @@
 import SnaxVerif.Lemmas.RegMap
 import SnaxVerif.Lemmas.CsrLower
+import SnaxVerif.Lemmas.Rocc
 /-!
 # C04 — CSR lowering writes every field to its declared register
 
@@ -67,7 +68,43 @@ address, so `lower_acc_setup` cannot raise `KeyError` on them. -/
 theorem regMap_complete_alu (cfg : Cfg) : ∀ f ∈ aluFieldNames cfg, (lookup (regMapAlu cfg).fields f).isSome :=
   fun f hf => mkStreamerMap_complete _ _ _ _ _ f (by simpa [aluFieldNames] using hf)
 
+theorem regMap_complete_gemmx (cfg : Cfg) (n : Nat) :
+    ∀ f ∈ gemmxFieldNames cfg n, (lookup (regMapGemmx cfg n).fields f).isSome := regMapGemmx_complete cfg n
+
+theorem regMap_complete_phs (cfg : Cfg) (sw : Nat) :
+    ∀ f ∈ phsFieldNames cfg sw, (lookup (regMapPhs cfg sw).fields f).isSome := regMapPhs_complete cfg sw
+
+theorem regMap_complete_xdma (cfg : Cfg) :
+    ∀ f ∈ xdmaFieldNames cfg, (lookup (regMapXdma cfg).fields f).isSome := regMapXdma_complete cfg
+
+/-- the launch names of the streamer accelerators (`launch_streamer` plus the accelerator's own) are declared -/
+theorem regMap_launch_complete :
+    (∀ cfg, ∀ f ∈ ["launch_streamer", "launch_alu"], (lookup (regMapAlu cfg).launch f).isSome) ∧
+    (∀ cfg n, ∀ f ∈ ["launch_streamer", "launch_gemmx"], (lookup (regMapGemmx cfg n).launch f).isSome) ∧
+    (∀ cfg sw, ∀ f ∈ ["launch_streamer", "launch_alu"], (lookup (regMapPhs cfg sw).launch f).isSome) :=
+  ⟨fun _ f hf => mkStreamerMap_launch_complete _ _ _ _ _ f (by simpa using hf),
+   fun _ _ f hf => mkStreamerMap_launch_complete _ _ _ _ _ f (by simpa using hf),
+   fun _ _ f hf => mkStreamerMap_launch_complete _ _ _ _ _ f (by simpa using hf)⟩
+
 /-! ## (b) lowering -/
+
+/-- The lowering raises (`KeyError`, `AssertionError`, failed accelerator lookup) EXACTLY when the program
+looks up something undeclared: it succeeds iff every accelerator is declared, every setup field and launch
+field is in the declared dictionaries and every launch field name contains "launch".  (`lower_refines` and
+`lower_no_state` are stated for successful lowerings; this says which programs those are.) -/
+theorem lower_total_iff (ds : List Decl) (p : Block) : (∃ q, lowerBlock ds p = .ok q) ↔ p.Declared ds :=
+  ⟨fun ⟨q, h⟩ => lowerBlock_ok_declared ds p q h, lowerBlock_total ds p⟩
+
+/-- so a setup built from an accelerator's own field names lowers against that accelerator's own map: for
+every configuration, e.g. snax_gemmx (likewise alu / phs / xdma by `regMap_complete_*`). -/
+theorem gemmx_own_setup_lowers (cfg : Cfg) (n : Nat) (ps : List (String × Var × Bool))
+    (h : ∀ p ∈ ps, p.1 ∈ gemmxFieldNames cfg n) :
+    ∃ l, lowerSetup (declOf "snax_gemmx" (regMapGemmx cfg n) .poll3) ps = .ok l := by
+  apply lowerSetup_total
+  intro p hp
+  simp only [declOf]
+  exact regMap_complete_gemmx cfg n p.1 (h p hp)
+
 
 /-- The lowered program, run on any data semantics (values, opaque ops, branch outcomes, trip counts all
 arbitrary), ends in the same data state and produces exactly the accfg-level trace mapped event by event
@@ -125,8 +162,8 @@ instruction emits that instruction with the materialised default 0 for the partn
 setup (on a path the state tracer could not thread, e.g. inside one branch of an `scf.if`) put there.  Here
 `k.rs1` was set to variable 1 by a previous setup; the instruction of the second setup carries `default0`. -/
 theorem rocc_stateless_partial_setup_carries_default_fails :
-    roccSetup [("k.rs1", 9), ("k.rs2", 9)] [("k.rs1", 1), ("k.rs2", 2)] none = .ok [.insn 9 (.var 1) (.var 2)] ∧
-    roccSetup [("k.rs1", 9), ("k.rs2", 9)] [("k.rs2", 3)] none = .ok [.const0, .insn 9 .default0 (.var 3)] ∧
+    roccSetup [("k.rs1", 9), ("k.rs2", 9)] [("k.rs1", 1), ("k.rs2", 2)] none = .ok [.insn "k" 9 (.var 1) (.var 2)] ∧
+    roccSetup [("k.rs1", 9), ("k.rs2", 9)] [("k.rs2", 3)] none = .ok [.const0, .insn "k" 9 .default0 (.var 3)] ∧
     RVal.default0 ≠ RVal.var 1 := by
   decide
 
@@ -142,6 +179,138 @@ theorem lower_result_order_matters :
     (execCS sem (.forS 0 [.data 10 11 0 12, .data 13 14 1 15] .nil) s0).1 10 = 7 ∧
     (execCS sem (.forS 0 [.data 13 11 0 12, .data 10 14 1 15] .nil) s0).1 10 = 9 := by
   decide
+
+
+/-! ## (c) RoCC: every emitted instruction carries the values in effect for both of its source fields
+
+Per op, relative to the inferred previous state `st` = `infer_state_of(in_state)` that the real code retraces
+through.  `PrevSound` — every field the inferred state mentions really holds that value — is the conclusion of
+the state-inference property (C07) and is ASSUMED here as a named hypothesis; everything `rocc.py` itself does
+(`create_pairs`, the retrace, the defaults, `combine_pairs_to_ops`) is inside the model and proved. -/
+
+/-- Setup with an input state: every emitted instruction carries, for BOTH source fields, the value in effect
+once the setup is done — the setup's own value where it gives one, the retraced value where the write was
+optimised away earlier. -/
+theorem rocc_setup_carries_current (decl : Dict) (ps st : List (String × Var)) (val : Var → Int) (regs : RegsR)
+    (l : List RStmt) (hprev : PrevSound val st regs) (h : roccSetup decl ps (some st) = .ok l) :
+    ∀ i f a b, RStmt.insn i f a b ∈ l →
+      rvalOf val a = applySetup val ps regs (i ++ ".rs1") ∧ rvalOf val b = applySetup val ps regs (i ++ ".rs2") := by
+  intro i f a b hm
+  simp only [roccSetup] at h
+  split at h
+  · obtain ⟨i', f', a', b', he, _, ha, hb⟩ := roccEmit_sound ps (fromState st) true decl l h _ hm
+    cases he
+    exact ⟨operand_fromState_sound hprev ps _ _ ha, operand_fromState_sound hprev ps _ _ hb⟩
+  · cases h
+
+/-- …and executing the emitted instructions leaves the instruction-level register file exactly where the
+accfg level says the setup leaves it: every configured field is transmitted (one instruction per configured
+instruction), nothing else changes.  Clauses: field names are `<instr>.rs1/.rs2`; the configured instructions
+are declared (an undeclared one is silently dropped by `current_fields`). -/
+theorem rocc_setup_refines (decl : Dict) (ps st : List (String × Var)) (val : Var → Int) (regs : RegsR)
+    (l : List RStmt) (hprev : PrevSound val st regs) (hwf : ∀ p ∈ ps, WF p.1)
+    (hdecl : ∀ p ∈ ps, ∃ f, (instrOf p.1 ++ ".rs1", f) ∈ decl)
+    (h : roccSetup decl ps (some st) = .ok l) :
+    ∀ k, execR val l regs k = applySetup val ps regs k := by
+  intro k
+  have hcar := rocc_setup_carries_current decl ps st val regs l hprev h
+  obtain ⟨h1, h2⟩ := execR_spec val (applySetup val ps regs) l regs hcar k
+  by_cases hw : Written l k
+  · exact h1 hw
+  · rw [h2 hw, applySetup_eq]
+    cases hl : lastLookup ps k with
+    | none => rfl
+    | some v =>
+      exfalso; apply hw
+      have hmem := lastLookup_some_mem hl
+      obtain ⟨f, hf⟩ := hdecl _ hmem
+      simp only [roccSetup] at h
+      split at h
+      · have hi : hasInstr ps (instrOf (instrOf k ++ ".rs1")) = true := by
+          rw [instrOf_rs1]; unfold hasInstr; rw [List.any_eq_true]; exact ⟨_, hmem, by simp⟩
+        obtain ⟨a, b, hm⟩ := roccEmit_complete ps (fromState st) true decl l h _ hf (isRs1_rs1 _) hi
+        rw [instrOf_rs1] at hm
+        exact ⟨_, _, _, _, hm, hwf _ hmem⟩
+      · cases h
+
+/-- The full statement for a setup WITHOUT input state (false of the code: finding DC04a). -/
+def rocc_first_setup_statement : Prop :=
+  ∀ (decl : Dict) (ps : List (String × Var)) (val : Var → Int) (regs : RegsR) (l : List RStmt),
+    roccSetup decl ps none = .ok l → ∀ i f a b, RStmt.insn i f a b ∈ l →
+      rvalOf val a = applySetup val ps regs (i ++ ".rs1") ∧ rvalOf val b = applySetup val ps regs (i ++ ".rs2")
+
+/-- Setup without input state, clause `hnever`: the operands the setup does not give were never set (hold 0).
+Then the materialised default is the value in effect. -/
+theorem rocc_first_setup_carries_current_partial (decl : Dict) (ps : List (String × Var)) (val : Var → Int)
+    (regs : RegsR) (l : List RStmt) (hnever : NeverSetZero ps regs) (h : roccSetup decl ps none = .ok l) :
+    ∀ i f a b, RStmt.insn i f a b ∈ l →
+      rvalOf val a = applySetup val ps regs (i ++ ".rs1") ∧ rvalOf val b = applySetup val ps regs (i ++ ".rs2") := by
+  intro i f a b hm
+  simp only [roccSetup] at h
+  split at h
+  · cases h
+  · next l' hl' =>
+    cases h
+    have hm' : RStmt.insn i f a b ∈ l' := by
+      rcases List.mem_append.mp hm with hm | hm
+      · split at hm
+        · cases hm
+        · simp at hm
+      · exact hm
+    obtain ⟨i', f', a', b', he, hi, ha, hb⟩ := roccEmit_sound ps _ true decl l' hl' _ hm'
+    cases he
+    unfold hasInstr at hi
+    rw [List.any_eq_true] at hi
+    obtain ⟨p, hp, hpi⟩ := hi
+    have hpi : instrOf p.1 = i := by simpa using hpi
+    have key : ∀ k x, (k = i ++ ".rs1" ∨ k = i ++ ".rs2") → operand ps (fun _ => some RVal.default0) k = some x →
+        rvalOf val x = applySetup val ps regs k := by
+      intro k x hk hx
+      rw [applySetup_eq]
+      unfold operand at hx
+      cases hl : lastLookup ps k with
+      | some v => rw [hl] at hx; cases hx; rfl
+      | none =>
+        rw [hl] at hx; cases hx
+        exact (hnever p hp k (by rw [hpi]; exact hk) hl).symm
+    exact ⟨key _ _ (Or.inl rfl) ha, key _ _ (Or.inr rfl) hb⟩
+
+/-- DC04a: without the clause the statement fails — `k.rs1` holds 11 (set on a path the tracer does not
+thread), a state-less setup of `k.rs2` transmits the default 0 for it. -/
+theorem rocc_first_setup_fails : ¬ rocc_first_setup_statement := by
+  intro h
+  have := (h [("k.rs1", 9), ("k.rs2", 9)] [("k.rs2", 3)] (fun _ => 5) (fun k => if k = "k.rs1" then 11 else 0)
+    [.const0, .insn "k" 9 .default0 (.var 3)] (by decide) "k" 9 .default0 (.var 3) (by simp)).1
+  revert this
+  decide
+
+/-- Launch: every declared launch instruction is emitted, carrying the launch op's own two values. -/
+theorem rocc_launch_carries_operands (decl : Dict) (ps : List (String × Var)) (l : List RStmt)
+    (h : roccLaunch decl ps = .ok l) :
+    (∀ i f a b, RStmt.insn i f a b ∈ l → ∃ v1 v2, lastLookup ps (i ++ ".rs1") = some v1 ∧
+        lastLookup ps (i ++ ".rs2") = some v2 ∧ a = .var v1 ∧ b = .var v2) ∧
+    (∀ e ∈ decl, isRs1 e.1 = true → ∃ a b, RStmt.insn (instrOf e.1) e.2 a b ∈ l) := by
+  simp only [roccLaunch] at h
+  split at h
+  · refine ⟨?_, roccEmit_all ps _ decl l h⟩
+    intro i f a b hm
+    obtain ⟨i', f', a', b', he, _, ha, hb⟩ := roccEmit_sound ps _ false decl l h _ hm
+    cases he
+    unfold operand at ha hb
+    cases h1 : lastLookup ps (i ++ ".rs1") with
+    | none => rw [h1] at ha; cases ha
+    | some v1 =>
+      cases h2 : lastLookup ps (i ++ ".rs2") with
+      | none => rw [h2] at hb; cases hb
+      | some v2 =>
+        rw [h1] at ha; rw [h2] at hb; cases ha; cases hb
+        exact ⟨v1, v2, rfl, rfl, rfl, rfl⟩
+  · cases h
+
+/-- non-vacuity: gemmini, a deduplicated setup (rs2 of ADDRS_AB optimised away) with the previous state -/
+example : roccSetup regMapGemmini.fields [("k_LOOP_WS_CONFIG_ADDRS_AB.rs1", 1)]
+      (some [("k_LOOP_WS_CONFIG_ADDRS_AB.rs1", 7), ("k_LOOP_WS_CONFIG_ADDRS_AB.rs2", 2)])
+    = .ok [.insn "k_LOOP_WS_CONFIG_ADDRS_AB" 10 (.var 1) (.var 2)] := by decide
 
 /-! ## non-vacuity -/
 
